@@ -411,6 +411,30 @@ theorem reported_after_safe (ops : List Op) (s : Sheet) (h : PairwiseDisjoint s.
   · rfl
   · exact mergeOverlap_id _ hp
 
+/-- clause "pairwise disjoint", specification side: the normal form `normSpec` (absorb what the new
+rectangle meets into the common bounding box; `none` as soon as a box reaches a range the rectangle itself
+did not meet) is pairwise disjoint whenever it exists. The driver checks on every `GetMergeCells` of every
+transcript that the one-pass code returns exactly this normal form whenever `normSpec ≠ none`; in Lean the
+equality is proved for the overlap-free case (`normalise_id_on_disjoint`) and decided on examples below. -/
+theorem normal_form_disjoint (rs l : List Rect) (h : normSpec rs = some l) :
+    l.Pairwise (fun a b => NoCommon a b) := normSpec_pairwise rs l h
+
+/-- both known failures of the one-pass normalisation are hazards in the sense of `normSpec`: the bounding
+box of an overlapping pair reaches an earlier range that the new rectangle did not meet -/
+theorem findings_are_hazards :
+    normSpec [⟨3, 1, 3, 3⟩, ⟨1, 3, 1, 4⟩, ⟨1, 4, 4, 4⟩] = none ∧
+    normSpec [⟨1, 1, 3, 3⟩, ⟨4, 2, 5, 4⟩, ⟨2, 4, 4, 5⟩] = none := by
+  constructor <;> decide +kernel
+
+/-- hazard-free overlapping inputs (corner overlap, cross, containment, a chain that grows twice, a box that
+absorbs two earlier ranges): the one-pass code returns the normal form -/
+theorem one_pass_exact_examples :
+    ∀ rs ∈ ([[⟨2, 2, 3, 3⟩, ⟨3, 3, 5, 5⟩], [⟨2, 2, 4, 2⟩, ⟨3, 1, 3, 3⟩], [⟨1, 1, 5, 5⟩, ⟨2, 2, 3, 3⟩],
+        [⟨2, 2, 3, 3⟩, ⟨3, 3, 5, 5⟩, ⟨5, 5, 6, 6⟩], [⟨1, 1, 2, 2⟩, ⟨4, 1, 5, 2⟩, ⟨2, 2, 4, 3⟩, ⟨7, 7, 8, 8⟩]] : List (List Rect)),
+      (normSpec rs).isSome = true ∧
+      some ((mergeOverlapCells (rs.map fun q => ⟨q, q⟩)).map (·.rect)) = normSpec rs := by
+  decide +kernel
+
 def rA (c1 r1 c2 r2 : Nat) : MObj := ⟨⟨c1, r1, c2, r2⟩, ⟨c1, r1, c2, r2⟩⟩
 
 /-- FINDING (negation of the full statement "reported ranges are always pairwise disjoint"):
